@@ -117,6 +117,9 @@ func MerkleTreeLeafFromChain(chain []*x509.Certificate, etype LogEntryType, time
 		},
 	}
 	if etype == X509LogEntryType {
+		if len(chain) == 0 {
+			return nil, fmt.Errorf("no leaf cert available for leaf building")
+		}
 		leaf.TimestampedEntry.X509Entry = &ASN1Cert{Data: chain[0].Raw}
 		return &leaf, nil
 	}
